@@ -101,7 +101,7 @@ var prop = vh.Define("C03", "roundtrip", func(c Case, r *vh.R) {
 				return
 			}
 			xs = append(xs, append([]byte{}, wb.Bytes()...))
-			nb, err := bundle.Read(bytes.NewReader(wb.Bytes()))
+			nb, err := bundle.Read(gen.Source(wb.Bytes(), gen.SourceModeOf(wb.Bytes())))
 			if err != nil {
 				r.Failf("reread-error", "cycle %d: Read rejects re-serialised bundle: %v", i+1, err)
 				return
